@@ -38,7 +38,7 @@ pub struct Local {
     // read side
     pub script: [Fill; NSCRIPT],
     pub pos: usize,
-    pub data: [u8; 6],     // bytes the local side will produce, in order
+    pub data: &'static [u8; 6], // bytes the local side will produce, in order (own object: see DESIGN §3.7)
     pub produced: usize,   // bytes handed out AND consumed so far
     pub cur_left: usize,   // bytes of the current Data entry not yet consumed
     pub fill_parked: bool, // a Pending fill_buf holds our waker
@@ -61,7 +61,7 @@ impl Local {
         Local {
             script: [any_fill(), any_fill(), any_fill()],
             pos: 0,
-            data: kani::any(),
+            data: std::boxed::Box::leak(std::boxed::Box::new(kani::any::<[u8; 6]>())),
             produced: 0,
             cur_left: 0,
             fill_parked: false,
@@ -139,11 +139,14 @@ impl AsyncWrite for Local {
             Step::Err => Poll::Ready(Err(io_err())),
             Step::Ok => {
                 let n = if buf.len() < me.wmax { buf.len() } else { me.wmax };
-                let mut i = 0;
-                while i < n {
-                    me.out[me.out_len] = buf[i];
+                // wmax <= 2: no loop (a loop here is unwound once per relay-loop iteration)
+                if n >= 1 {
+                    me.out[me.out_len] = buf[0];
                     me.out_len += 1;
-                    i += 1;
+                }
+                if n >= 2 {
+                    me.out[me.out_len] = buf[1];
+                    me.out_len += 1;
                 }
                 Poll::Ready(Ok(n))
             }
@@ -184,11 +187,16 @@ fn cx_poll<T>(f: impl FnOnce(&mut Context<'_>) -> T) -> T {
 // ---------------------------------------------------------------------------------------
 // local -> mux : one poll of `poll_write_us` from `Transferring(0)`
 // ---------------------------------------------------------------------------------------
-fn write_direction(credit: u32) {
+/// `script` is concrete per harness (a symbolic script makes every chunk length, and with it
+/// every memcpy into the frame, symbolic); credit, the closed flag, the data bytes and the
+/// flush result stay symbolic.
+fn write_direction(script: [Fill; NSCRIPT]) {
     let finish: bool = kani::any();
+    let credit: u32 = kani::any();
+    kani::assume(credit <= 2);
     let (s, mut e) = mk_stream(credit, 2, 2, 0, finish);
-    let local = Local::any();
-    let script = local.script;
+    let mut local = Local::any();
+    local.script = script;
     let data = local.data;
     let mut b = core::mem::ManuallyDrop::new(CopyBidirectional::new(s, local));
     let clones0 = waker_clones();
@@ -361,10 +369,19 @@ macro_rules! h {
         }
     };
 }
-h!(c13_write_dir_credit0, 8, write_direction(0));
-h!(c13_write_dir_credit1, 8, write_direction(1));
-h!(c13_write_dir_credit2, 8, write_direction(2));
+use Fill::{Data1 as D1, Data2 as D2, Eof as E, Err as X, Pending as P};
+h!(c13_write_dir_p, 8, write_direction([P, E, E]));
+h!(c13_write_dir_e, 8, write_direction([E, E, E]));
+h!(c13_write_dir_x, 8, write_direction([X, E, E]));
+h!(c13_write_dir_dp, 8, write_direction([D2, P, E]));
+h!(c13_write_dir_de, 8, write_direction([D1, E, E]));
+h!(c13_write_dir_dx, 8, write_direction([D2, X, E]));
+h!(c13_write_dir_ddp, 8, write_direction([D1, D2, P]));
+h!(c13_write_dir_dde, 8, write_direction([D2, D1, E]));
+h!(c13_write_dir_ddx, 8, write_direction([D1, D1, X]));
+h!(c13_write_dir_ddd, 8, write_direction([D2, D1, D1]));
 h!(c13_read_dir_q0, 8, read_direction(0));
 h!(c13_read_dir_q1, 8, read_direction(1));
 h!(c13_read_dir_q2, 8, read_direction(2));
 h!(c13_whole_poll, 8, whole_poll());
+
